@@ -16,7 +16,7 @@ use crate::refimpl::crypto::{Proto, RefKey};
 
 const HTTP_PREFIX: &str = "HTTP/1.1 200";
 
-fn health_once(port: u16, limit: Duration) -> Result<String, String> {
+pub fn health_once(port: u16, limit: Duration) -> Result<String, String> {
     let addr = format!("127.0.0.1:{}", port).parse().unwrap();
     let mut s = TcpStream::connect_timeout(&addr, limit).map_err(|e| format!("connect: {}", e))?;
     s.set_read_timeout(Some(limit)).unwrap();
@@ -60,13 +60,20 @@ pub fn observe(out: &mut Out, sp: &mut ServerProc, pk: &[u8], nworkers: usize, r
     // light traffic for the whole observation window, from fresh source ports: "stays alive and
     // answers requests" is judged over the window, not at two instants
     let bg_stop = std::sync::Arc::new(std::sync::atomic::AtomicBool::new(false));
+    // the prober falls silent while the frozen burst is judged: only then does a request that
+    // waits for "some later datagram" stay visibly unanswered
+    let bg_pause = std::sync::Arc::new(std::sync::atomic::AtomicBool::new(false));
     let bg = {
-        let (stop, pkc, port, s0) = (bg_stop.clone(), pk.to_vec(), sp.cfg.port, rng.next_u64());
+        let (stop, pause, pkc, port, s0) = (bg_stop.clone(), bg_pause.clone(), pk.to_vec(), sp.cfg.port, rng.next_u64());
         std::thread::spawn(move || {
             let mut r = Rng::new(s0);
             let (mut ok, mut unanswered, mut invalid) = (0u32, 0u32, 0u32);
             let mut first_fail: Option<String> = None;
             while !stop.load(std::sync::atomic::Ordering::Relaxed) {
+                if pause.load(std::sync::atomic::Ordering::Relaxed) {
+                    std::thread::sleep(Duration::from_millis(5));
+                    continue;
+                }
                 let proto = if r.chance(1, 3) { Proto::Ietf } else { Proto::Classic };
                 match probe(port, &pkc, proto, &mut r, Duration::from_millis(800)) {
                     Ok(_) => ok += 1,
@@ -166,12 +173,24 @@ pub fn observe(out: &mut Out, sp: &mut ServerProc, pk: &[u8], nworkers: usize, r
     if let Some(hp) = sp.cfg.health_check_port {
         let addr: std::net::SocketAddr = format!("127.0.0.1:{}", sp.cfg.port).parse().unwrap();
         let burst_sock = UdpSocket::bind("127.0.0.1:0").unwrap();
+        bg_pause.store(true, std::sync::atomic::Ordering::Relaxed);
+        std::thread::sleep(Duration::from_millis(40));
         sp.signal(libc::SIGSTOP);
         std::thread::sleep(Duration::from_millis(5));
         let mut pending = Vec::new();
-        // 70 minimum-size requests: more than one call may answer at batch_size 1, yet well inside
+        // sometimes preceded by one whole batch of datagrams the server must drop
+        let bs = sp.cfg.batch_size.unwrap_or(64) as usize;
+        let junk = if bs <= 2 || sp.cfg.port % 3 == 0 { bs } else { 0 };
+        for _ in 0..junk {
+            let _ = burst_sock.send_to(&rng.rbytes(1, 24), addr);
+        }
+        if junk > 0 {
+            out.obs("frozen_bursts_with_junk_prefix", 1);
+        }
+        let nvalid = if junk >= 32 { 50 } else { 70 };
+        // minimum-size requests: more than one call may answer at batch_size 1, yet well inside
         // the server socket's default receive buffer together with the background probes
-        for j in 0..70 {
+        for j in 0..nvalid {
             let proto = if j % 2 == 0 { Proto::Classic } else { Proto::Ietf };
             let nonce = rng.bytes(proto.nonce_len());
             let pkt = match proto {
@@ -182,6 +201,18 @@ pub fn observe(out: &mut Out, sp: &mut ServerProc, pk: &[u8], nworkers: usize, r
             pending.push((pkt, nonce, if j % 2 == 0 { Proto::Classic } else { Proto::Ietf }));
         }
         let nconn = (2 * nworkers).clamp(2, 12);
+        // first in the accept queue: connections that the client resets before they are accepted
+        // (writing the reply to them fails); the well-behaved ones queue up behind them
+        for _ in 0..nworkers.min(4) {
+            if let Ok(s) = TcpStream::connect_timeout(&format!("127.0.0.1:{}", hp).parse().unwrap(), Duration::from_millis(300)) {
+                let lin = libc::linger { l_onoff: 1, l_linger: 0 };
+                unsafe {
+                    libc::setsockopt(std::os::unix::io::AsRawFd::as_raw_fd(&s), libc::SOL_SOCKET, libc::SO_LINGER, &lin as *const libc::linger as *const libc::c_void, std::mem::size_of::<libc::linger>() as u32);
+                }
+                drop(s); // RST
+                out.obs("reset_connections_queued", 1);
+            }
+        }
         let hs: Vec<_> = (0..nconn).map(|_| std::thread::spawn(move || health_once(hp, Duration::from_secs(4)))).collect();
         std::thread::sleep(Duration::from_millis(30));
         sp.signal(libc::SIGCONT);
@@ -208,14 +239,22 @@ pub fn observe(out: &mut Out, sp: &mut ServerProc, pk: &[u8], nworkers: usize, r
         burst_sock.set_read_timeout(Some(Duration::from_millis(1500))).unwrap();
         let mut buf = vec![0u8; 4096];
         let mut answered = 0;
-        while answered < 70 {
+        while answered < nvalid {
             match burst_sock.recv_from(&mut buf) {
                 Ok(_) => answered += 1,
                 Err(_) => break,
             }
         }
         let _ = pending;
+        bg_pause.store(false, std::sync::atomic::Ordering::Relaxed);
         out.obs("frozen_burst_replies", answered as i64);
+        let drops_now = crate::inproc::udp_drops(sp.cfg.port).unwrap_or(0);
+        if answered < nvalid && drops_now == drops0 {
+            v.push((
+                format!("C15 burst requests-unanswered junk-prefix={}", junk > 0),
+                format!("{} of {} requests queued while the process was stopped{} were not answered within 1.5 s of silence", nvalid - answered, nvalid, if junk > 0 { format!(" behind {} droppable datagrams", junk) } else { String::new() }),
+            ));
+        }
     }
     // stay alive for the rest of the window
     while t0.elapsed() < window {
@@ -272,6 +311,10 @@ fn run_config(ctx: &Ctx, out: &mut Out, cfg0: &SrvCfg, rng: &mut Rng, tag: &str,
     loop {
         attempt += 1;
         let mut cfg = cfg0.clone();
+        // a share of the configurations runs on fewer CPUs than it has workers
+        if nworkers >= 2 && cfg0.seed[0] % 5 == 0 {
+            cfg.pin = Some(if cfg0.seed[1] % 2 == 0 { "0".into() } else { "0,1".into() });
+        }
         if !fixed_ports {
             cfg.port = free_port(false);
             if cfg.health_check_port.is_some() {
@@ -313,6 +356,9 @@ fn run_config(ctx: &Ctx, out: &mut Out, cfg0: &SrvCfg, rng: &mut Rng, tag: &str,
         }
         let viol = observe(out, &mut sp, &pk, nworkers, rng, Duration::from_secs(3));
         out.obs("configurations_observed", 1);
+        if cfg.pin.is_some() {
+            out.obs("configurations_on_fewer_cpus_than_workers", 1);
+        }
         if nworkers > 1 && cfg.health_check_port.is_some() {
             out.obs("configs_multiworker_with_health", 1);
         }
